@@ -366,6 +366,6 @@ func CheckC20(c *C20Case, st *Stats) error {
 
 func init() {
 	Register("C20",
-		"a generated tree is rendered with drawn whitespace/newlines at every token boundary (LF, CRLF, blank lines, occasionally a raw newline inside a string), optional bracket-free text with newlines before the root, and exactly one injected syntax error of a kind whose message cites a line (invalid literal in a list / as an object value, detected at its terminating delimiter; bad character where a key must start; bad character after a key; bad character after a nested container in an object), at a drawn nesting depth; the generator records the byte offset of the detecting character. Oracle: if the error text ends in 'on line N' then N == 1 + number of newline bytes before that offset; via ParseList, ParseObject and ParseFile. Non-trivial = at least one newline before the error and the error inside a nested container, or newlines in text before the root bracket. Distinct = distinct FNV-64a hash of the case JSON.",
+		"a generated tree is rendered with drawn whitespace/newlines at every token boundary (LF, CRLF, blank lines, occasionally a raw newline inside a string), optional bracket-free text with newlines before the root (occasionally 255-1000 blank lines, thorough up to 70000), bare CR and CR LF layouts, and exactly one injected syntax error of a kind whose message cites a line (invalid literal in a list / as an object value, detected at its terminating delimiter; bad character where a key must start; bad character after a key; bad character after a nested container in an object), at a drawn nesting depth; the generator records the byte offset of the detecting character. Oracle: if the error text ends in 'on line N' then N == 1 + number of newline bytes before that offset; via ParseList, ParseObject and ParseFile. Non-trivial = at least one newline before the error and the error inside a nested container, or newlines in text before the root bracket. Distinct = distinct FNV-64a hash of the case JSON.",
 		GenC20, CheckC20)
 }
